@@ -14,7 +14,7 @@ from common import Rng
 from gen_prog import ANY, INT, STR, TUP_II, U_IS, arr_type, arr_val, ival, sval
 
 LEVEL = "proof"
-THEOREMS = ["C08_memofree_check", "C08_stateless", "C08_nested", "C08_bare", "C08_arrays", "C08_reject_binds_nothing", "C08_generated_good"]
+THEOREMS = ["C08_memofree_check", "C08_stateless", "C08_nested", "C08_bare", "C08_arrays", "C08_reject_binds_nothing", "C08_generated_good", "C08_source_instancecheck", "C08_source_checkL",]
 RULE = (
     "quick: every tree of depth <=2 over tuple/list/dict/None with <=2 children (per leaf value pool) and "
     "seeded random trees of depth <=3 incl. namedtuples and registered nodes, x leaf types {int, str, "
